@@ -23,3 +23,157 @@ package keeper
 //@   ensures stored:    err == nil ==> has(prm) && get(prm) == msg.Params && types.paramsOK(msg.Params)
 //@   ensures rejected:  err != nil ==> prm == old(prm)
 //@ end
+
+// ---------------------------------------------------------------------------------------------
+// Earned fees (C07): per provider and per owner, one stored coin per denomination
+
+//@ family earned      key types.GetEarnedFeesKey value sdk.Coin prefix types.GetEarnedFeesSubspace
+//@ family ownerEarned key types.GetOwnerEarnedFeesKey value sdk.Coin prefix types.GetOwnerEarnedFeesSubspace
+//@ family owners      key types.GetOwnerKey value gogotypes.BytesValue
+//@ family ownerProv   key types.GetOwnerProviderKey value bytes slice 21:=1 prefix types.GetOwnerProvidersSubspace
+//@ family wdAddr      key types.GetWithdrawAddrKey value bytes
+
+// the tally of account a in table T as a Coins value, denomination by denomination
+//@ define tally(T, a, d) = ite(has(T, a, d), get(T, a, d).Amount, 0)
+// stored entries are positive coins filed under their own denomination
+//@ define tallyWF(T) = forall a:Bytes :: forall d:Str :: has(T, a, d) ==> get(T, a, d).Denom == d && get(T, a, d).Amount > 0
+
+//@ func Keeper.GetEarnedFees
+//@   property C07
+//@   returns fees, found
+//@   requires tallyWF(earned)
+//@   invariant #1 pos:  0 <= it_idx && it_idx <= it_n
+//@   invariant #1 sum:  forall d:Str :: amt(fees, d) == ite(has(earned, provider, d) && itpos(provider, d) < it_idx, get(earned, provider, d).Amount, 0)
+//@   ensures view: found && (forall d:Str :: amt(fees, d) == tally(earned, provider, d))
+//@   nopanic
+//@ end
+
+//@ func Keeper.GetOwnerEarnedFees
+//@   property C07
+//@   returns fees, found
+//@   requires tallyWF(ownerEarned)
+//@   invariant #1 pos:  0 <= it_idx && it_idx <= it_n
+//@   invariant #1 sum:  forall d:Str :: amt(fees, d) == ite(has(ownerEarned, owner, d) && itpos(owner, d) < it_idx, get(ownerEarned, owner, d).Amount, 0)
+//@   ensures view: found && (forall d:Str :: amt(fees, d) == tally(ownerEarned, owner, d))
+//@   nopanic
+//@ end
+
+// A-COINS: list view and array view of a valid Coins value agree (every listed coin is positive and filed once; every
+// positive amount is listed): cidx(c, d) is the position of denomination d.
+//@ define cidx(c, d) = uf("coins_index", c, d)
+//@ axiom coinsListI(c, i)
+//@   ensures 0 <= i && i < len(c) ==> amt(c, coinat(c, i).Denom) > 0 && cidx(c, coinat(c, i).Denom) == i
+//@ axiom coinsListD(c, d)
+//@   ensures amt(c, d) > 0 ==> 0 <= cidx(c, d) && cidx(c, d) < len(c) && coinat(c, cidx(c, d)).Denom == d
+//@   ensures amt(c, d) >= 0
+
+// Set writes exactly the listed denominations (it does not clear the others: callers that shrink a tally clear first)
+//@ func Keeper.SetEarnedFees
+//@   property C07
+//@   uses coinsListI(fees, 0)
+//@   uses coinsListD(fees, "")
+//@   modifies earned
+//@   invariant #1 idx:  rangeindex >= 0 - 1 && rangeindex < len(fees)
+//@   invariant #1 done: forall d:Str :: amt(fees, d) > 0 && cidx(fees, d) <= rangeindex ==> has(earned, provider, d) && get(earned, provider, d) == coin(d, amt(fees, d))
+//@   invariant #1 rest: (forall d:Str :: !(amt(fees, d) > 0 && cidx(fees, d) <= rangeindex) ==> has(earned, provider, d) == old(has(earned, provider, d)) && get(earned, provider, d) == old(get(earned, provider, d)))
+//@                   && (forall a:Bytes :: forall d:Str :: a != provider ==> has(earned, a, d) == old(has(earned, a, d)) && get(earned, a, d) == old(get(earned, a, d)))
+//@   ensures written: forall d:Str :: amt(fees, d) > 0 ==> has(earned, provider, d) && get(earned, provider, d) == coin(d, amt(fees, d))
+//@   ensures kept:    forall d:Str :: amt(fees, d) <= 0 ==> has(earned, provider, d) == old(has(earned, provider, d)) && get(earned, provider, d) == old(get(earned, provider, d))
+//@   ensures frame:   forall a:Bytes :: forall d:Str :: a != provider ==> has(earned, a, d) == old(has(earned, a, d)) && get(earned, a, d) == old(get(earned, a, d))
+//@ end
+
+//@ func Keeper.SetOwnerEarnedFees
+//@   property C07
+//@   uses coinsListI(fees, 0)
+//@   uses coinsListD(fees, "")
+//@   modifies ownerEarned
+//@   invariant #1 idx:  rangeindex >= 0 - 1 && rangeindex < len(fees)
+//@   invariant #1 done: forall d:Str :: amt(fees, d) > 0 && cidx(fees, d) <= rangeindex ==> has(ownerEarned, owner, d) && get(ownerEarned, owner, d) == coin(d, amt(fees, d))
+//@   invariant #1 rest: (forall d:Str :: !(amt(fees, d) > 0 && cidx(fees, d) <= rangeindex) ==> has(ownerEarned, owner, d) == old(has(ownerEarned, owner, d)) && get(ownerEarned, owner, d) == old(get(ownerEarned, owner, d)))
+//@                   && (forall a:Bytes :: forall d:Str :: a != owner ==> has(ownerEarned, a, d) == old(has(ownerEarned, a, d)) && get(ownerEarned, a, d) == old(get(ownerEarned, a, d)))
+//@   ensures written: forall d:Str :: amt(fees, d) > 0 ==> has(ownerEarned, owner, d) && get(ownerEarned, owner, d) == coin(d, amt(fees, d))
+//@   ensures kept:    forall d:Str :: amt(fees, d) <= 0 ==> has(ownerEarned, owner, d) == old(has(ownerEarned, owner, d)) && get(ownerEarned, owner, d) == old(get(ownerEarned, owner, d))
+//@   ensures frame:   forall a:Bytes :: forall d:Str :: a != owner ==> has(ownerEarned, a, d) == old(has(ownerEarned, a, d)) && get(ownerEarned, a, d) == old(get(ownerEarned, a, d))
+//@ end
+
+//@ func Keeper.DeleteEarnedFees
+//@   property C07
+//@   modifies earned
+//@   invariant #1 pos:  0 <= it_idx && it_idx <= it_n
+//@   invariant #1 done: forall d:Str :: old(has(earned, provider, d)) && itpos(provider, d) < it_idx ==> !has(earned, provider, d)
+//@   invariant #1 rest: (forall d:Str :: !(old(has(earned, provider, d)) && itpos(provider, d) < it_idx) ==> has(earned, provider, d) == old(has(earned, provider, d)) && get(earned, provider, d) == old(get(earned, provider, d)))
+//@                   && (forall a:Bytes :: forall d:Str :: a != provider ==> has(earned, a, d) == old(has(earned, a, d)) && get(earned, a, d) == old(get(earned, a, d)))
+//@   ensures cleared: forall d:Str :: !has(earned, provider, d)
+//@   ensures frame:   forall a:Bytes :: forall d:Str :: a != provider ==> has(earned, a, d) == old(has(earned, a, d)) && get(earned, a, d) == old(get(earned, a, d))
+//@ end
+
+//@ func Keeper.DeleteOwnerEarnedFees
+//@   property C07
+//@   modifies ownerEarned
+//@   invariant #1 pos:  0 <= it_idx && it_idx <= it_n
+//@   invariant #1 done: forall d:Str :: old(has(ownerEarned, owner, d)) && itpos(owner, d) < it_idx ==> !has(ownerEarned, owner, d)
+//@   invariant #1 rest: (forall d:Str :: !(old(has(ownerEarned, owner, d)) && itpos(owner, d) < it_idx) ==> has(ownerEarned, owner, d) == old(has(ownerEarned, owner, d)) && get(ownerEarned, owner, d) == old(get(ownerEarned, owner, d)))
+//@                   && (forall a:Bytes :: forall d:Str :: a != owner ==> has(ownerEarned, a, d) == old(has(ownerEarned, a, d)) && get(ownerEarned, a, d) == old(get(ownerEarned, a, d)))
+//@   ensures cleared: forall d:Str :: !has(ownerEarned, owner, d)
+//@   ensures frame:   forall a:Bytes :: forall d:Str :: a != owner ==> has(ownerEarned, a, d) == old(has(ownerEarned, a, d)) && get(ownerEarned, a, d) == old(get(ownerEarned, a, d))
+//@ end
+
+//@ define REQ = macc("service_request_account")
+//@ define DEP = macc("service_deposit_account")
+//@ define FEECOL = macc(k.feeCollectorName)
+//@ define TAXRATE = get(prm).ServiceFeeTax
+//@ define taxOf(fee, d) = (amt(fee, d) * raw(TAXRATE)) div DEC_ONE
+//@ define ownerOf(p) = get(owners, p).Value
+
+// A fee that has been earned: floor(fee * tax) per denomination goes to the fee collector, the rest is added to the
+// provider's tally and, by the same amount, to the tally of the provider's owner; the coins stay in the request escrow.
+//@ func Keeper.AddEarnedFee
+//@   property C07
+//@   returns err
+//@   requires has(prm) && !isnil(TAXRATE) && raw(TAXRATE) >= 0 && raw(TAXRATE) <= DEC_ONE
+//@   requires tallyWF(earned) && tallyWF(ownerEarned)
+//@   requires forall d:Str :: amt(fee, d) >= 0
+//@   requires k.feeCollectorName != "service_request_account" && k.feeCollectorName != "service_deposit_account"
+//@   requires has(owners, provider)
+//@   uses coinsListI(fee, 0)
+//@   uses coinsListD(fee, "")
+//@   modifies bal, earned, ownerEarned
+//@   invariant #1 idx: rangeindex >= 0 - 1 && rangeindex < len(fee)
+//@   invariant #1 tax: forall d:Str :: amt(taxCoins, d) == ite(amt(fee, d) > 0 && cidx(fee, d) <= rangeindex, taxOf(fee, d), 0)
+//@   invariant #1 frame: bal == old(bal) && earned == old(earned) && ownerEarned == old(ownerEarned)
+//@   ensures tax_paid:  err == nil ==> (forall d:Str :: bal(REQ, d) == old(bal(REQ, d)) - taxOf(fee, d) && bal(FEECOL, d) == old(bal(FEECOL, d)) + taxOf(fee, d))
+//@   ensures ledger_frame: forall a:Bytes :: forall d:Str :: a != REQ && a != FEECOL ==> bal(a, d) == old(bal(a, d))
+//@   ensures provider_tally: err == nil ==> (forall d:Str :: tally(earned, provider, d) == old(tally(earned, provider, d)) + amt(fee, d) - taxOf(fee, d))
+//@   ensures owner_tally:    err == nil ==> (forall d:Str :: tally(ownerEarned, ownerOf(provider), d) == old(tally(ownerEarned, ownerOf(provider), d)) + amt(fee, d) - taxOf(fee, d))
+//@   ensures others:   (forall a:Bytes :: forall d:Str :: a != provider ==> has(earned, a, d) == old(has(earned, a, d)) && get(earned, a, d) == old(get(earned, a, d)))
+//@                  && (forall a:Bytes :: forall d:Str :: a != ownerOf(provider) ==> has(ownerEarned, a, d) == old(has(ownerEarned, a, d)) && get(ownerEarned, a, d) == old(get(ownerEarned, a, d)))
+//@   ensures keeps_wf: tallyWF(earned) && tallyWF(ownerEarned)
+//@ end
+
+//@ define WD(o) = ite(has(wdAddr, o), get(wdAddr, o), o)
+
+// Withdrawal: only the owner; pays exactly the tally that is cleared, and the owner's tally goes down by exactly the
+// provider's tally in every denomination (C07: both tallies keep agreeing, nothing can be withdrawn twice).
+//@ func Keeper.WithdrawEarnedFees
+//@   property C07
+//@   returns err
+//@   requires tallyWF(earned) && tallyWF(ownerEarned)
+//@   requires forall d:Str :: tally(ownerEarned, owner, d) >= tally(earned, provider, d)
+//@   requires WD(owner) != REQ
+//@   modifies bal, earned, ownerEarned
+//@   invariant #1 pos:  0 <= it_idx && it_idx <= it_n
+//@   invariant #1 done: forall j:Int :: 0 <= j && j < it_idx ==> (forall d:Str :: !has(earned, it_seq[j].k1, d))
+//@   invariant #1 frame: bal == old(bal) && ownerEarned == old(ownerEarned) && tallyWF(earned)
+//@                    && (forall a:Bytes :: forall d:Str :: has(earned, a, d) ==> old(has(earned, a, d)) && get(earned, a, d) == old(get(earned, a, d)))
+//@   ensures authority: err == nil && !isempty(provider) ==> owner == ownerOf(provider) || (!has(owners, provider) && isempty(owner))
+//@   ensures provider_cleared: err == nil && !isempty(provider) ==> (forall d:Str :: !has(earned, provider, d))
+//@   ensures owner_reduced: err == nil && !isempty(provider) ==> (forall d:Str :: tally(ownerEarned, owner, d) == old(tally(ownerEarned, owner, d)) - old(tally(earned, provider, d)))
+//@   ensures paid_provider: err == nil && !isempty(provider) ==> (forall d:Str :: bal(REQ, d) == old(bal(REQ, d)) - old(tally(earned, provider, d))
+//@                             && bal(WD(owner), d) == old(bal(WD(owner), d)) + old(tally(earned, provider, d)))
+//@   ensures owner_cleared: err == nil && isempty(provider) ==> (forall d:Str :: !has(ownerEarned, owner, d))
+//@                             && (forall p:Bytes :: old(has(ownerProv, owner, p)) ==> (forall d:Str :: !has(earned, p, d)))
+//@   ensures paid_owner: err == nil && isempty(provider) ==> (forall d:Str :: bal(REQ, d) == old(bal(REQ, d)) - old(tally(ownerEarned, owner, d))
+//@                             && bal(WD(owner), d) == old(bal(WD(owner), d)) + old(tally(ownerEarned, owner, d)))
+//@   ensures ledger_frame: forall a:Bytes :: forall d:Str :: a != REQ && a != WD(owner) ==> bal(a, d) == old(bal(a, d))
+//@   ensures others: (forall a:Bytes :: forall d:Str :: a != owner ==> has(ownerEarned, a, d) == old(has(ownerEarned, a, d)) && get(ownerEarned, a, d) == old(get(ownerEarned, a, d)))
+//@ end
